@@ -27,6 +27,11 @@ class CallMixin:
         fn_src = ast.unparse(node.func)
         if fn_src.startswith(NOOP_MODULE_CALLS) or fn_src.startswith("self.logger."):
             return SV(None, T.NONE)
+        if isinstance(node.func, ast.Attribute) and node.func.attr == "join" \
+                and isinstance(node.func.value, ast.Constant) and isinstance(node.func.value.value, str):
+            # "sep".join(<iterable>): message text; its content is opaque and the argument is not evaluated
+            # (assumed: a pure iterable of strings - anything else would be a TypeError in CPython)
+            return SV(self.w.fresh(T.STR, "joined"), T.STR)
         fn = self.ev(node.func)
         if isinstance(fn, FuncRef) and fn.fq.startswith("builtin."):
             return self.call_builtin(fn.fq[8:], node)
@@ -149,6 +154,22 @@ class CallMixin:
             return self._q("exists", i, body)
         if isinstance(cls, SV) and cls.ty.kind in ("list", "tuple"):
             raise Unsupported("isinstance with a symbolic class tuple")
+        if isinstance(cls, FuncRef) and cls.fq in ("builtin.int", "builtin.float", "builtin.str", "builtin.bool",
+                                                   "builtin.list", "builtin.dict", "builtin.set"):
+            # builtin classes: decided by the static type the value has in the encoding (bool is an int in python)
+            if not isinstance(v, SV):
+                raise Unsupported("isinstance of non-value")
+            want = cls.fq[8:]
+            t = v.ty
+            if t.kind == "opt":
+                s = self.w.sort(t)
+                inner = SV(s.accessor(1, 0)(v.term), t.args[0])
+                return z3.And(s.recognizer(1)(v.term), self.class_test(inner, cls, line, exact))
+            kinds = {"int": ("int", "bool"), "float": ("real",), "str": ("str",), "bool": ("bool",),
+                     "list": ("list",), "dict": ("dict",), "set": ("set",)}[want]
+            if t.kind in ("int", "bool", "real", "str", "list", "dict", "set", "none", "obj", "enum", "tuple"):
+                return z3.BoolVal(t.kind in kinds)
+            raise Unsupported(f"isinstance({t}, {want}) (line {line})")
         if not isinstance(cls, ClassRef):
             raise Unsupported(f"isinstance with {type(cls).__name__} (line {line})")
         if not isinstance(v, SV):
@@ -326,6 +347,8 @@ class CallMixin:
             return self.materialize(v)
         if isinstance(v, PyTuple):
             return self.coerce(v, T.List(self._join_all([x.ty for x in v.items])))
+        if isinstance(v, SV) and v.ty.kind == "opt" and v.ty.args[0].kind in ("list", "dict", "set"):
+            v = self.coerce(v, v.ty.args[0], node.lineno)  # list(None) is a TypeError: obliges `is not None`
         if isinstance(v, SV) and v.ty.kind == "list":
             return SV(v.term, v.ty, fresh=True)
         if isinstance(v, DictView) or (isinstance(v, SV) and v.ty.kind == "dict"):
